@@ -174,6 +174,13 @@ func init() {
 		e.schedExplore = args[0].(*Term).V != 0
 		return nil
 	}
+	verifAPI["verifPreemptions"] = func(e *Exec, args []Value, st string) Value {
+		// context bound: at most n preemptive switches (a goroutine that could continue is descheduled) per run;
+		// switches forced by blocking are always explored in full
+		e.preemptLeft = argInt(args[0])
+		e.Assumes[fmt.Sprintf("schedule exploration bounded to %d preemptive context switches per run", e.preemptLeft)] = true
+		return nil
+	}
 	verifAPI["verifLeaked"] = func(e *Exec, args []Value, st string) Value {
 		// number of goroutines that can never finish once the harness goroutine stops communicating
 		left := e.settle()
